@@ -1174,6 +1174,46 @@ void run_exhaustion(Judge& j) {
     if (!after_ok) j.res.violation("C08", "C08:id-not-reusable-after-completion", "after the outstanding exchanges completed a new QoS 2 publish did not complete", rp);
 }
 
+// refused requests must leave the identifier pool as it was: a mix of every refusal path (capability, validation, size - the last
+// one is decided after an identifier was taken), then many exchanges outstanding at once against a broker that answers late
+void run_c08_refusals(Judge& j, uint64_t n) {
+    const FamilyCtx& ctx = j.ctx;
+    for (uint64_t i = 0; i < n; ++i) {
+        if (int(i % ctx.nshards) != ctx.shard) continue;
+        vu::Rng rng(ctx.seed * 48271 + i * 69621 + 13);
+        Scenario sc; sc.family = "c08-refusals"; sc.seed = ctx.seed; sc.index = i;
+        sc.bcfg.caps.maximum_packet_size = 60; sc.bcfg.caps.maximum_qos = 1; sc.bcfg.caps.wildcard_available = 0;
+        sc.bcfg.ack_delay_min = 2 * SEC; sc.bcfg.ack_delay_max = 4 * SEC;
+        Action r; r.kind = Action::run; sc.script.push_back(r);
+        int nref = (int)rng.range(3, 20);
+        for (int k = 0; k < nref; ++k) {
+            Action p; p.at = 1 * SEC + k * MS;
+            switch (rng.below(6)) {
+                case 0: p.kind = Action::subscribe; p.subs = {{"a/#", 0}}; p.expect_immediate = true; p.expect_ec = 108; break;
+                case 1: p.kind = Action::publish; p.qos = 2; p.topic = "x"; p.payload = ""; p.expect_immediate = true; p.expect_ec = 105; break;
+                case 2: p.kind = Action::unsubscribe; p.subs = {{std::string(80, 'u'), 0}}; p.expect_immediate = true; p.expect_ec = 101; break;
+                case 3: p.kind = Action::subscribe; p.subs = {{std::string(80, 's'), 0}}; p.expect_immediate = true; p.expect_ec = 101; break;
+                case 4: p.kind = Action::publish; p.qos = 1; p.topic = "big"; p.payload = std::string(80, 'p'); p.expect_immediate = true; p.expect_ec = 101; break;
+                default: p.kind = Action::publish; p.qos = 1; p.raw_topic = true; p.topic = "bad/#"; p.payload = "x"; p.expect_immediate = true; p.expect_ec = 104; break;
+            }
+            sc.script.push_back(p);
+        }
+        int nacc = (int)rng.range(3, 12);
+        for (int k = 0; k < nacc; ++k) {
+            Action p; p.at = 1500 * MS + k * MS;
+            if (k % 3 == 0) { p.kind = Action::publish; p.qos = 1; p.topic = "ok"; p.payload = "y"; }
+            else if (k % 3 == 1) { p.kind = Action::unsubscribe; p.subs = {{"u", 0}}; }
+            else { p.kind = Action::subscribe; p.subs = {{"s", 1}}; }
+            sc.script.push_back(p);
+        }
+        sc.end = 12 * SEC;
+        vu::set_case(sc.family + " index=" + std::to_string(i));
+        auto ex = execute(sc);
+        j.judge(sc, *ex);
+        j.res.count("refusal_then_concurrency_scenarios");
+    }
+}
+
 // ------------------------------------------------------------------------------------------------ C19: hostile broker bytes
 std::string mutate_packet(vu::Rng& rng, ref::Gen& g, uint8_t type, const ref::Packet* base = nullptr) {
     ref::Packet p = base ? *base : g.server_packet(type);
@@ -1456,6 +1496,8 @@ int run_families(const FamilyCtx& ctx, vu::Result& res) {
         Knobs k = knobs_for("c08-mix");
         run_mix(j, k, "c08-mix", T ? 100000 : 2000);
         run_exhaustion(j);
+        run_spurious(j, T ? 6000 : 400);          // surplus acknowledgements: an id is not free before its own exchange was acknowledged
+        run_c08_refusals(j, T ? 40 : 8);          // refused requests (every refusal path) followed by concurrent exchanges
     } else if (P == "C09") {
         run_idle_sweep(j, T ? 60 : 8, T ? 200 : 90, {1, 5, 9}, T ? 400 : 120, {1, 5, 9}, T ? 200 : 40);
     } else if (P == "C10") {
